@@ -186,6 +186,9 @@ def pytorch_stft_frame_computer(
     else:
         pad_left = (frame_length + 1) // 2 - 1
     num_frames = max(0, (sig_len + frame_shift // 2) // frame_shift)
+    if num_frames == 0:
+        # a frame shift of more than twice the signal's length: no frame, as in NumPy
+        return sig.new_empty((0, num_filts + int(include_energy)))
     total_len = (num_frames - 1) * frame_shift - pad_left + frame_length
     pad_right = max(0, total_len - sig_len)
     if pad_left or pad_right:
